@@ -99,6 +99,19 @@ class SegmentAllocationTableAdapter(Adapter):
                     elif value_current == AKAI_SAT_FREE_FLAG or \
                             (value_current < size and dirty_flags[value_current]):
 
+                        if value_current != AKAI_SAT_FREE_FLAG \
+                                and value_current != subpath_index \
+                                and value_current not in links:
+                            # The chain runs into a chain that was decoded 
+                            # earlier (its first sector is not its lowest): 
+                            # keep what was walked and join that chain.
+                            links.append(subpath_index)
+                            add_to_sector_links(links, sector_links)
+                            sector_links[subpath_index] = SectorLink(
+                                next=value_current, 
+                                end=False
+                            )
+
                         continue_flag = False
                         dirty_flags[subpath_index] = True
                         previous_sector_was_directory = False
